@@ -92,3 +92,7 @@ pub async fn spawn(config: KeysetConfig) -> watch::Receiver<Arc<KeySet>> {
     });
     rx
 }
+
+#[cfg(all(test, feature = "pendulum_project_ntpd_rs_verif"))]
+#[path = "../../../../verif/harness/ntpd/daemon_nts_key_provider.rs"]
+mod verif_daemon_nts_key_provider;
